@@ -217,6 +217,7 @@ def streams(pid, tier, seed):
         add("wild", c05_stream(seed, 20000 if q else 300000))
         add("wildN", c05_stream(seed + 1, 8000 if q else 100000), "nh")
         add("hexm", gen.hex_malformed())
+        add("sweepEcc", gen.sweep_ecc(stride(8, 1), seed))
     elif pid == "C06":
         for t in range(3):
             add("thr%d" % t, gen.sweep_thresholds(t, stride(48, 2), seed + t))
@@ -272,6 +273,7 @@ def twin_specs(pid, tier, seed):
     T = []
     if pid == "C03":
         for i in range(reps): T.append(("c03_%d" % i, twins.twin_c03(seed * 1000 + i, 6000 if q else 40000), "u", "u"))
+        for i in range(reps): T.append(("c03e_%d" % i, twins.twin_c03(seed * 1000 + 500 + i, 6000 if q else 40000, style="early"), "u", "u"))
     elif pid == "C13":
         for i in range(reps * 4): T.append(("c13_%d" % i, twins.twin_c13(seed * 1000 + i, 300 + 200 * (i % 5), 1500 if q else 6000), "u", "u"))
     elif pid == "C14":
@@ -531,7 +533,24 @@ def run_property(pid, tier, seed):
             du, dn, changed = infra.extraction(full=(tier != "quick" and pid in ("C11",)))
             ctx.cov["generated_changed"] = changed
         except infra.BuildError as e:
-            path = runner.write_replay(pid, "build", ["kind=build/extraction step failed; the tie between model and source cannot be established", str(e)[:3000].replace("\n", " | ")], [])
+            msg = str(e)
+            san = ("runtime error" in msg or "AddressSanitizer" in msg or "Sanitizer" in msg)
+            if pid == "C05" and san:
+                # the extractor (public API over whole finite domains, ASan+UBSan build) aborted: that is C05's business;
+                # keep going with the streams to obtain an ops-file replay as well
+                path = runner.write_replay(pid, "extractor", ["kind=runtime: the table extractor (harness/extract.c: every lookup function and every (PI class, ECC) pair through the public API) aborted under the sanitizers", msg[:3000].replace("\n", " | ")], [])
+                ctx.add_violation(path, "sanitizer abort in the extractor")
+                for name, cfg, ops in streams(pid, tier, seed):
+                    res = runner.run_stream(ctx.workdir, name, cfg, ops)
+                    if res.harness_rc != 0:
+                        rep = runner.check_stream(res) if os.path.exists(infra.rdsmodel()) else {"stat": {}}
+                        k = int(rep["stat"].get("ops", 0)) if rep.get("stat") else len(ops)
+                        opsk = runner.slice_for_instance(ops, k + 1)
+                        p2 = runner.write_replay(pid, "%s-s%d" % (name, seed), ["property=C05 stream=%s cfg=%s kind=runtime harness exit %d: %s" % (name, cfg, res.harness_rc, res.harness_err.strip()[-1500:].replace("\n", " | "))], opsk)
+                        ctx.add_violation(p2, "sanitizer abort in stream " + name)
+                        break
+                return finish(ctx)
+            path = runner.write_replay(pid, "build", ["kind=build/extraction step failed; the tie between model and source cannot be established", msg[:3000].replace("\n", " | ")], [])
             ctx.add_violation(path, "build/extraction failed", nofail=True)
             return finish(ctx)
         # 3./4. Lean obligations
